@@ -88,6 +88,7 @@ type ModelVar struct {
 
 // Unit: verification of one function (or one lemma).
 type Unit struct {
+	patHits map[string]map[string]bool // clause pattern -> callees it matched (review aid)
 	cx            *Ctx
 	enc           *Enc
 	assumes       []string
